@@ -26,6 +26,21 @@ def _snapshot(rm, reservations):
             tuple(tuple(sorted(r.reserved_resources.items())) for r in reservations))
 
 
+def _check_records(env, rm, before, after, desc):
+    b = {n: (u, c) for n, u, c in before[0]}
+    a = {n: (u, c) for n, u, c in after[0]}
+    recs = env.simulation_data.get('resource_update', {})
+    for n, st in a.items():
+        got = [tuple(x) for x in recs.get(n, [])]
+        if st != b.get(n):
+            if not got:
+                raise Violation('resource_record', f'{desc} changed {n} from {b.get(n)} to {st} (usage, capacity) without a '
+                                                   f'resource_update record')
+        if got and (got[-1][1:] != (st[0], st[1]) or got[-1][0] > env.now):
+            raise Violation('resource_record', f'after {desc}: last resource_update of {n} is {got[-1]}, pool at t={env.now} is '
+                                               f'{st} (usage, capacity)')
+
+
 # ============================================================================ C09
 
 @world('rm')
@@ -126,11 +141,9 @@ class RMWorld(CompWorld):
             n += 1
             if n > 50:
                 raise HarnessError('check events do not drain')
-        for lab, d in self.env.simulation_data.items():
-            if lab == 'resource_update':
-                for r, recs in d.items():
-                    if tuple(recs[-1][1:]) != (rm.get_resource_usage(r), rm.get_resource_capacity(r)):
-                        raise Violation('record', f'last resource_update of {r} {recs[-1]} vs pool')
+        if self.params.get('records'):
+            # C15 (resource clause): whatever changed is recorded, stamped now, and the last record equals the pool
+            _check_records(self.env, rm, before, _snapshot(rm, self.res), desc)
         self.env.simulation_data.clear()
         self.check(desc)
 
@@ -285,7 +298,8 @@ class RMWaitWorld(CompWorld):
       ('drain',)          execute every event of the current instant (real Environment.step)
       ('advance',)        real Environment.run(1): the clock advances by one unit
     '''
-    _canon_skip = CompWorld._canon_skip + ('requests', 'adds', 'kinds', 'log', 'max_wait', 'max_res', 'late_registered', 'ref_ncb')
+    _canon_skip = CompWorld._canon_skip + ('requests', 'adds', 'kinds', 'log', 'max_wait', 'max_res', 'late_registered', 'ref_ncb',
+                                           'prev_snap')
 
     def __init__(self, params):
         super().__init__(params)
@@ -304,6 +318,7 @@ class RMWaitWorld(CompWorld):
         self.ncb = 0
         self.log = []
         self.dirty = False             # something happened since the last drain
+        self.prev_snap = _snapshot(self.rm, [])
         # exploration may start from a non-initial state: a fixed prefix of operations, not counted in the depth
         for lab in params.get('prefix', []):
             self.budget += 1
@@ -472,6 +487,10 @@ class RMWaitWorld(CompWorld):
             raise HarnessError(f'unknown op {label}')
         if k not in ('drain', 'advance') and self.log:
             raise Violation('callbacks', f'callback invoked synchronously inside {label}: {self.log}')
+        if self.params.get('records'):
+            snap = _snapshot(rm, [])
+            _check_records(self.env, rm, self.prev_snap, snap, str(label))
+            self.prev_snap = snap
         self.env.simulation_data.clear()
         self.compare()
         if k == 'advance':
